@@ -488,8 +488,9 @@ def save_score_midi(
                         measure.start.t
                     )  # keep track of changing the ts
                     irregular_measure_time.append(measure.start.t)
-                    # now go back to original ts if there is no ts change after this measure
-                    if not any([ts_t > measure.start.t for ts_t in ts_changing_time]):
+                    # now go back to the original ts at the end of this measure,
+                    # unless a notated ts change stands there anyway
+                    if not any([ts.start.t == measure.end.t for ts in all_ts]):
                         meta_events[part][to_ppq(measure.end.t)].append(
                             MetaMessage(
                                 "time_signature",
